@@ -6,7 +6,7 @@
 (* data without entity ...) so that all three outcome classes are reached.           *)
 (* `ps` is advanced by AseLoad!ApplyChunk, one action per chunk (machine-shaped);     *)
 (* every reachable state is a complete program and is exported for replay.            *)
-EXTENDS AseObs, Json
+EXTENDS AseObs, AseParse, Json
 
 CONSTANTS MaxLen, Depth
 VARIABLES prog, ps, frame
@@ -73,5 +73,28 @@ CelOrderInv ==
     LET fin == Validate(ps) IN
     Outcome(fin) = "ok" =>
       \A a, b \in DOMAIN fin.cels : (a # b) => <<fin.cels[a].f, fin.cels[a].l>> # <<fin.cels[b].f, fin.cels[b].l>>
+\* ---- the byte level: Encode and Decode are inverse as far as the loader can tell, on every enumerated program ----
+\* encoding-only fields (unused header/layer/cel fields, padding, count field) take their defaults
+FullChunk(c) ==
+  c @@ CASE c.k = "layer" -> [dw |-> 0, dh |-> 0, rsv |-> 0] [] c.k = "cel" -> [rsv |-> 0]
+         [] c.k = "tags" -> [x |-> 0] [] c.k = "slice" -> [rsv |-> "0"] [] c.k = "celextra" -> [body |-> <<1, 2, 3>>]
+         [] c.k = "pal" -> [x |-> 0] [] OTHER -> [x |-> 0]
+FullTags(c) == IF c.k = "tags" THEN [c EXCEPT !.tags = [i \in DOMAIN c.tags |-> c.tags[i] @@ [color |-> "0"]]] ELSE c
+FullExt(c) == IF c.k = "extfiles" THEN [c EXCEPT !.entries = [i \in DOMAIN c.entries |-> c.entries[i] @@ [etype |-> 0]]] ELSE c
+FullProgram ==
+  [hdr |-> Hdr @@ [flags |-> "0", fsize |-> "0", ncolors |-> 0, grid |-> <<0, 0>>, gridsz |-> <<0, 0>>, rsv |-> 0],
+   frames |-> [i \in 1..2 |-> [dur |-> Program.frames[i].dur, magic |-> 61946, rsv |-> 0, count_field |-> IF i = 1 THEN "both" ELSE "old",
+                                chunks |-> [k \in DOMAIN Program.frames[i].chunks |-> FullExt(FullTags(FullChunk(Program.frames[i].chunks[k])))],
+                                pads |-> [k \in DOMAIN Program.frames[i].chunks |-> k % 3]]],
+   trailing |-> <<9, 9>>]
+RoundTripInv ==
+  frame = 1 =>
+    LET b == Encode(FullProgram)
+        d == Decode(b)
+    IN /\ d.t = "ok"
+       /\ Load(d.prog) = Load(Program)
+       /\ EndOfFrames(b) = Len(b) - 2                           \* two trailing bytes after the last frame
+       /\ OutcomeOfBytes(b) = Outcome(Load(Program))
+
 Export == frame = 1 => PrintT(<<"PROG", ToJson([outcome |-> Outcome(Validate(ps)), prog |-> Program])>>)
 =============================================================================
